@@ -1,4 +1,5 @@
 import EdpVerif.Generated.MiscC18
+import EdpVerif.Generated.MiscRegistry
 import EdpVerif.Generated.MiscState
 import EdpVerif.Lemmas.ProcsLate
 import EdpVerif.Lemmas.Behaviours
@@ -1006,5 +1007,17 @@ theorem C18_reply_waits_for_a_full_caller (full : PidF → Bool) (env : Beh.Env)
 example : replyK .trySend (fun _ => true) (fun _ => .live) ⟨[110], 1, 0, 1, none⟩ (.int 7) = [] ∧
     Beh.reply (fun _ => .live) ⟨[110], 1, 0, 1, none⟩ (.int 7) = [.send ⟨[110], 1, 0, 1, none⟩ (.int 7)] := by
   constructor <;> rfl
+
+/-- **the registry takes its two locks in the order the model's atomic steps assume**: `register` claims a name as ONE
+step of the model (the process is looked up and the name entered without anything in between). In the code the two tables
+have separate locks, so that is true only because `register` holds the names for the whole function and checks the process
+under them, while `remove` drops the process first and sweeps its names afterwards: a `remove` that falls between the check
+and the claim would otherwise leave the name to a process that is gone, for good (seeded change S77). The events of the four
+functions, regenerated from registry.rs in source order, are these. -/
+theorem C18_registry_lock_order_is_the_sources :
+    Gen.REGISTRY_REGISTER_EVENTS = ["hold:by_name.write", "temp:by_pid.read", "check-live", "claim-name"] ∧
+    Gen.REGISTRY_REMOVE_EVENTS = ["temp:by_pid.write", "drop", "temp:by_name.write", "sweep-names"] ∧
+    Gen.REGISTRY_UNREGISTER_EVENTS = ["temp:by_name.write", "drop"] ∧
+    Gen.REGISTRY_WHEREIS_EVENTS = ["temp:by_name.read", "look-up"] := by decide
 
 end Edp.Props.C18
